@@ -15,7 +15,8 @@ Definition source_shapes_ok : bool :=
   iter_shape_Range_Iter_Init && iter_shape_Range_Iter_Next && iter_shape_Range_Iter_Prev &&
   iter_shape_Filter_Iter_Init && iter_shape_Filter_Iter_Last && iter_shape_Filter_Iter_Next && iter_shape_Filter_Iter_Prev &&
   iter_shape_Map_Iter_Next && iter_shape_Map_Iter_Prev &&
-  iter_shape_Zip_Iter_Next && iter_shape_Zip_Iter_Prev && iter_shape_Zip_Len.
+  iter_shape_Zip_Iter_Next && iter_shape_Zip_Iter_Prev && iter_shape_Zip_Len &&
+  iter_shape_Tree_Iter_Init && iter_shape_Tree_Iter_Next && iter_shape_Tree_Iter_Last && iter_shape_Tree_Iter_Prev.
 
 (* Tree: larger keys go left, so the in-order walk is descending *)
 Definition source_tree_desc : bool := iter_tree_desc.
